@@ -160,6 +160,11 @@ sc!(
     c18_e5_d @ 26 => { let x: E5<Vec<u8>> = E5::D { a: any(), b: vec_n::<u8>(2) }; schema_inner::<_, 48, 0>(&x) };
     c18_opt_zeros @ 26 => { let x: Option<ZeroS> = Some(ZeroS { a: any(), b: any() }); schema_inner::<_, 32, 0>(&x) };
     c18_arr_string @ 26 => { let x: [String; 2] = [string_w(0, 0), string_w(3, 0)]; schema_inner::<_, 48, 0>(&x) };
+    c18_vecu128_p0 @ 26 => { let x: Vec<u128> = vec_n::<u128>(1); schema_inner::<_, 48, 0>(&x) };
+    c18_vecu128_p3 @ 26 => { let x: Vec<u128> = vec_n::<u128>(1); schema_inner::<_, 48, 3>(&x) };
+    c18_zal32_p8 @ 40 => { let x = ZAl32 { x: any() }; schema_inner::<_, 64, 8>(&x) };
+    c18_zal32_p16 @ 40 => { let x = ZAl32 { x: any() }; schema_inner::<_, 64, 16>(&x) };
+    c18_zal32_p31 @ 40 => { let x = ZAl32 { x: any() }; schema_inner::<_, 64, 31>(&x) };
     c18_tup3 @ 26 => { let x: (u64, u64, u64) = (any(), any(), any()); schema_inner::<_, 48, 5>(&x) };
 );
 
